@@ -113,6 +113,9 @@ class Device:
             else:
                 self._complete()
                 delay = final
+        elif self.pending is None and self.sched.get('status_delays'):
+            # a status answer outside any operation (the initial polls, also while in dfuERROR) may ask for a delay too
+            delay = self.sched['status_delays'].pop(0)
         resp = struct.pack('<BBBBBB', self.status, delay & 0xff, (delay >> 8) & 0xff, (delay >> 16) & 0xff, self.state, 0)
         self.requests.append(('GETSTATUS', self.status, self.state, delay))
         self.wait_until = self.clock.now + delay / 1000.0
